@@ -16,22 +16,32 @@ Proof. intros. rewrite backup_quiescent_files. reflexivity. Qed.
 Definition refs_present (pages : list (N * N)) (refs : list (N * N)) : Prop :=
   forall id c, In (id, c) refs -> page_lookup id pages = Some c.
 
+Definition upto_of (s : wstate) : N := w_next_tx s - 1 - N.of_nat (length (w_pending s)).
+
 Record inv (s : wstate) (d : disk) : Prop := {
-  inv_manifest : last_manifest (d_log d) ([], [], 0) = (w_refs s, w_sunk s, w_next_tx s - 1 - N.of_nat (length (w_pending s)));
+  inv_manifest : last_manifest (d_log d) mf0 = (w_refs s, fst (w_prop s), w_sunk s, upto_of s);
   inv_refs : refs_present (d_pages d) (w_refs s);
+  inv_prop : fst (w_prop s) <> 0 -> page_lookup (fst (w_prop s)) (d_pages d) = Some (snd (w_prop s));
+  inv_prop0 : fst (w_prop s) = 0 -> snd (w_prop s) = 0;
+  inv_prop_below : fst (w_prop s) < w_next_page s;
+  inv_prop_notref : forall c, ~ In (fst (w_prop s), c) (w_refs s);
   inv_pages_below : forall id c, In (id, c) (d_pages d) -> id < w_next_page s;
   inv_refs_below : forall id c, In (id, c) (w_refs s) -> id < w_next_page s;
-  inv_log : filter (fun t => (w_next_tx s - 1 - N.of_nat (length (w_pending s))) <? t) (log_txs (d_log d)) = w_pending s;
+  inv_log : filter (fun t => upto_of s <? t) (log_txs (d_log d)) = w_pending s;
   inv_pending : forall t, In t (w_pending s) -> t < w_next_tx s;
   inv_tx_pos : 1 <= w_next_tx s /\ N.of_nat (length (w_pending s)) <= w_next_tx s - 1;
-  inv_log_below : forall t, In t (log_txs (d_log d)) -> t < w_next_tx s
+  inv_log_below : forall t, In t (log_txs (d_log d)) -> t < w_next_tx s;
+  inv_labels : log_labels (d_log d) = w_labels s
 }.
 
 Lemma last_manifest_app : forall a b acc, last_manifest (a ++ b) acc = last_manifest b (last_manifest a acc).
-Proof. induction a as [|[t|r s u] a IH]; intros; cbn [app last_manifest]; auto. Qed.
+Proof. induction a as [|[t|l|rf p s u] a IH]; intros; cbn [app last_manifest]; auto. Qed.
 
 Lemma log_txs_app : forall a b, log_txs (a ++ b) = log_txs a ++ log_txs b.
-Proof. induction a as [|[t|r s u] a IH]; intros; cbn [app log_txs]; rewrite ?IH; auto. Qed.
+Proof. induction a as [|[t|l|rf p s u] a IH]; intros; cbn [app log_txs]; rewrite ?IH; auto. Qed.
+
+Lemma log_labels_app : forall a b, log_labels (a ++ b) = log_labels a ++ log_labels b.
+Proof. induction a as [|[t|l|rf p s u] a IH]; intros; cbn [app log_labels]; rewrite ?IH; auto. Qed.
 
 Lemma apply_steps_app : forall a b d, apply_steps d (a ++ b) = apply_steps (apply_steps d a) b.
 Proof. intros. unfold apply_steps. apply fold_left_app. Qed.
@@ -40,16 +50,29 @@ Lemma content_of_inv : forall s d, inv s d -> content d = Some (committed s).
 Proof.
   intros s d I. unfold content. rewrite (inv_manifest _ _ I).
   replace (forallb _ (w_refs s)) with true.
-  - rewrite (inv_log _ _ I). reflexivity.
+  - rewrite (inv_log _ _ I), (inv_labels _ _ I). unfold committed.
+    destruct (fst (w_prop s) =? 0) eqn:Z.
+    + apply N.eqb_eq in Z. rewrite (inv_prop0 _ _ I Z). reflexivity.
+    + apply N.eqb_neq in Z. rewrite (inv_prop _ _ I Z). reflexivity.
   - symmetry. apply forallb_forall. intros [id c] Hin. rewrite (inv_refs _ _ I id c Hin). apply N.eqb_refl.
 Qed.
 
 Lemma inv_new : inv wstate_new disk_empty.
 Proof.
-  constructor; cbn [wstate_new disk_empty w_refs w_sunk w_next_tx w_pending w_next_page d_log d_pages length last_manifest log_txs filter].
-  all: try reflexivity. all: try (intros; contradiction).
+  constructor; unfold upto_of; cbn [wstate_new disk_empty w_refs w_sunk w_next_tx w_pending w_next_page w_prop w_labels d_log d_pages length last_manifest log_txs log_labels filter fst snd].
+  - reflexivity.
   - intros id c [].
+  - intro H. exfalso. apply H. reflexivity.
+  - reflexivity.
+  - lia.
+  - intros c [].
+  - intros id c [].
+  - intros id c [].
+  - reflexivity.
+  - intros t [].
   - cbn. lia.
+  - intros t [].
+  - reflexivity.
 Qed.
 
 Lemma page_lookup_skip : forall l pages id,
@@ -96,38 +119,82 @@ Qed.
 Lemma filter_none : forall (f : N -> bool) l, (forall x, In x l -> f x = false) -> filter f l = [].
 Proof. induction l as [|x t IH]; intros H; cbn [filter]; [reflexivity|]. rewrite (H x (or_introl eq_refl)). apply IH. intros y Hy. apply H. right. exact Hy. Qed.
 
+Lemma log_labels_map : forall ls, log_labels (map LLabel ls) = ls.
+Proof. induction ls as [|x t IH]; cbn [map log_labels]; [reflexivity|]. rewrite IH. reflexivity. Qed.
+Lemma log_txs_map_label : forall ls, log_txs (map LLabel ls) = [].
+Proof. induction ls as [|x t IH]; cbn [map log_txs]; auto. Qed.
+Lemma last_manifest_map_label : forall ls acc, last_manifest (map LLabel ls) acc = acc.
+Proof. induction ls as [|x t IH]; intros; cbn [map last_manifest]; auto. Qed.
+
+Lemma page_lookup_cons_other : forall id pid v pages, id <> pid -> page_lookup id ((pid, v) :: pages) = page_lookup id pages.
+Proof. intros. cbn [page_lookup]. destruct (pid =? id) eqn:E; [apply N.eqb_eq in E; congruence|reflexivity]. Qed.
+
 Lemma inv_step : forall s d o steps s', inv s d -> wsteps s o = (steps, s') -> inv s' (apply_steps d steps).
 Proof.
-  intros s d o steps s' I H. destruct o as [|k]; cbn [wsteps] in H.
-  - inversion H; subst steps s'; clear H. unfold apply_steps. cbn [fold_left apply_step].
-    pose proof (inv_tx_pos _ _ I) as [P1 P2].
-    constructor; cbn [d_log d_pages w_refs w_sunk w_next_tx w_pending w_next_page].
-    + rewrite last_manifest_app. cbn [last_manifest]. rewrite (inv_manifest _ _ I). rewrite app_length. cbn [length]. f_equal. lia.
+  intros s d o steps s' I H. pose proof (inv_tx_pos _ _ I) as [P1 P2].
+  destruct o as [| |k|]; cbn [wsteps] in H.
+  - (* commit *)
+    inversion H; subst steps s'; clear H. unfold apply_steps. cbn [fold_left apply_step].
+    constructor; unfold upto_of; cbn [d_log d_pages w_refs w_sunk w_next_tx w_pending w_next_page w_prop w_labels].
+    + rewrite last_manifest_app. cbn [last_manifest]. rewrite (inv_manifest _ _ I). unfold upto_of. rewrite app_length. cbn [length]. f_equal. lia.
     + exact (inv_refs _ _ I).
+    + exact (inv_prop _ _ I).
+    + exact (inv_prop0 _ _ I).
+    + exact (inv_prop_below _ _ I).
+    + exact (inv_prop_notref _ _ I).
     + exact (inv_pages_below _ _ I).
     + exact (inv_refs_below _ _ I).
     + rewrite log_txs_app, filter_app. cbn [log_txs filter]. rewrite app_length. cbn [length].
-      replace (w_next_tx s + 1 - 1 - N.of_nat (length (w_pending s) + 1)) with (w_next_tx s - 1 - N.of_nat (length (w_pending s))) by lia.
+      replace (w_next_tx s + 1 - 1 - N.of_nat (length (w_pending s) + 1)) with (upto_of s) by (unfold upto_of; lia).
       rewrite (inv_log _ _ I).
-      assert ((w_next_tx s - 1 - N.of_nat (length (w_pending s)) <? w_next_tx s) = true) as -> by lia. reflexivity.
+      assert ((upto_of s <? w_next_tx s) = true) as -> by (unfold upto_of; lia). reflexivity.
     + intros t Hin. apply in_app_or in Hin. destruct Hin as [Hin|[Hin|[]]]; [pose proof (inv_pending _ _ I t Hin); lia|lia].
     + rewrite app_length. cbn [length]. lia.
     + intros t Hin. rewrite log_txs_app in Hin. apply in_app_or in Hin. cbn [log_txs In] in Hin.
       destruct Hin as [Hin|[Hin|[]]]; [pose proof (inv_log_below _ _ I t Hin); lia|lia].
-  - destruct (w_pending s) as [|p0 pt] eqn:Ep.
-    + inversion H; subst steps s'. exact I.
-    + remember (fresh_pages (w_next_page s) (S k)) as np eqn:Enp.
-      remember (N.of_nat (S k)) as nk eqn:Enk.
+    + rewrite log_labels_app. cbn [log_labels]. rewrite app_nil_r. exact (inv_labels _ _ I).
+  - (* label *)
+    inversion H; subst steps s'; clear H. unfold apply_steps. cbn [fold_left apply_step].
+    constructor; unfold upto_of; cbn [d_log d_pages w_refs w_sunk w_next_tx w_pending w_next_page w_prop w_labels].
+    + rewrite last_manifest_app. cbn [last_manifest]. exact (inv_manifest _ _ I).
+    + exact (inv_refs _ _ I).
+    + exact (inv_prop _ _ I).
+    + exact (inv_prop0 _ _ I).
+    + exact (inv_prop_below _ _ I).
+    + exact (inv_prop_notref _ _ I).
+    + exact (inv_pages_below _ _ I).
+    + exact (inv_refs_below _ _ I).
+    + rewrite log_txs_app. cbn [log_txs]. rewrite app_nil_r. exact (inv_log _ _ I).
+    + exact (inv_pending _ _ I).
+    + exact (conj P1 P2).
+    + intros t Hin. rewrite log_txs_app in Hin. cbn [log_txs] in Hin. rewrite app_nil_r in Hin. exact (inv_log_below _ _ I t Hin).
+    + rewrite log_labels_app. cbn [log_labels]. rewrite (inv_labels _ _ I). reflexivity.
+  - (* compact *)
+    destruct (w_pending s) as [|p0 pt] eqn:Ep.
+    { inversion H; subst steps s'. exact I. }
+    remember (fresh_pages (w_next_page s) (S k)) as np eqn:Enp.
+    remember (N.of_nat (S k)) as nk eqn:Enk.
+    assert (Hnk : 1 <= nk) by lia.
+    pose proof (inv_prop_below _ _ I) as Pb.
+    destruct (fst (w_prop s) =? 0) eqn:Zp.
+    + (* first compaction with properties: the tree gets a fresh page *)
+      apply N.eqb_eq in Zp.
       inversion H; subst steps s'; clear H.
-      rewrite apply_steps_app, apply_pages. unfold apply_steps. cbn [fold_left apply_step d_pages d_log].
-      pose proof (inv_tx_pos _ _ I) as [P1 P2].
-      constructor; cbn [d_log d_pages w_refs w_sunk w_next_tx w_pending w_next_page length].
+      rewrite apply_steps_app, apply_pages. unfold apply_steps. cbn [app fold_left apply_step d_pages d_log fst snd].
+      constructor; unfold upto_of; cbn [d_log d_pages w_refs w_sunk w_next_tx w_pending w_next_page w_prop w_labels length fst snd].
       * rewrite last_manifest_app. cbn [last_manifest]. f_equal. lia.
-      * intros id c Hin. apply in_app_or in Hin. destruct Hin as [Hin|Hin].
+      * intros id c Hin. assert (id <> w_next_page s + nk).
+        { apply in_app_or in Hin. destruct Hin as [Hin|Hin]; [subst np; apply fresh_pages_ids in Hin; lia|pose proof (inv_refs_below _ _ I id c Hin); lia]. }
+        rewrite page_lookup_cons_other by assumption.
+        apply in_app_or in Hin. destruct Hin as [Hin|Hin].
         -- subst np. apply fresh_pages_lookup. exact Hin.
         -- rewrite page_lookup_fresh_app; [exact (inv_refs _ _ I id c Hin)|].
            intros c' Hin'. subst np. apply fresh_pages_ids in Hin'. pose proof (inv_refs_below _ _ I id c Hin). lia.
-      * intros id c Hin. apply in_app_or in Hin. destruct Hin as [Hin|Hin].
+      * intros _. cbn [page_lookup]. rewrite N.eqb_refl. reflexivity.
+      * intro X. lia.
+      * lia.
+      * intros c Hin. apply in_app_or in Hin. destruct Hin as [Hin|Hin]; [subst np; apply fresh_pages_ids in Hin; lia|pose proof (inv_refs_below _ _ I _ c Hin); lia].
+      * intros id c [Hin|Hin]; [inversion Hin; subst; lia|]. apply in_app_or in Hin. destruct Hin as [Hin|Hin].
         -- apply in_rev in Hin. subst np. apply fresh_pages_ids in Hin. lia.
         -- pose proof (inv_pages_below _ _ I id c Hin). lia.
       * intros id c Hin. apply in_app_or in Hin. destruct Hin as [Hin|Hin].
@@ -138,6 +205,55 @@ Proof.
       * intros t [].
       * lia.
       * intros t Hin. rewrite log_txs_app in Hin. cbn [log_txs] in Hin. rewrite app_nil_r in Hin. exact (inv_log_below _ _ I t Hin).
+      * rewrite log_labels_app. cbn [log_labels]. rewrite app_nil_r. exact (inv_labels _ _ I).
+    + (* later compactions: the property root is rewritten in place *)
+      apply N.eqb_neq in Zp.
+      inversion H; subst steps s'; clear H.
+      rewrite apply_steps_app, apply_pages. unfold apply_steps. cbn [app fold_left apply_step d_pages d_log fst snd].
+      constructor; unfold upto_of; cbn [d_log d_pages w_refs w_sunk w_next_tx w_pending w_next_page w_prop w_labels length fst snd].
+      * rewrite last_manifest_app. cbn [last_manifest]. f_equal. lia.
+      * intros id c Hin. assert (id <> fst (w_prop s)).
+        { apply in_app_or in Hin. destruct Hin as [Hin|Hin]; [subst np; apply fresh_pages_ids in Hin; lia|].
+          intro X. subst id. exact (inv_prop_notref _ _ I c Hin). }
+        rewrite page_lookup_cons_other by assumption.
+        apply in_app_or in Hin. destruct Hin as [Hin|Hin].
+        -- subst np. apply fresh_pages_lookup. exact Hin.
+        -- rewrite page_lookup_fresh_app; [exact (inv_refs _ _ I id c Hin)|].
+           intros c' Hin'. subst np. apply fresh_pages_ids in Hin'. pose proof (inv_refs_below _ _ I id c Hin). lia.
+      * intros _. cbn [page_lookup]. rewrite N.eqb_refl. reflexivity.
+      * intro X. contradiction.
+      * lia.
+      * intros c Hin. apply in_app_or in Hin. destruct Hin as [Hin|Hin]; [subst np; apply fresh_pages_ids in Hin; lia|exact (inv_prop_notref _ _ I c Hin)].
+      * intros id c [Hin|Hin]; [inversion Hin; subst; lia|]. apply in_app_or in Hin. destruct Hin as [Hin|Hin].
+        -- apply in_rev in Hin. subst np. apply fresh_pages_ids in Hin. lia.
+        -- pose proof (inv_pages_below _ _ I id c Hin). lia.
+      * intros id c Hin. apply in_app_or in Hin. destruct Hin as [Hin|Hin].
+        -- subst np. apply fresh_pages_ids in Hin. lia.
+        -- pose proof (inv_refs_below _ _ I id c Hin). lia.
+      * rewrite log_txs_app. cbn [log_txs]. rewrite app_nil_r. apply filter_none.
+        intros t Hin. pose proof (inv_log_below _ _ I t Hin). lia.
+      * intros t [].
+      * lia.
+      * intros t Hin. rewrite log_txs_app in Hin. cbn [log_txs] in Hin. rewrite app_nil_r in Hin. exact (inv_log_below _ _ I t Hin).
+      * rewrite log_labels_app. cbn [log_labels]. rewrite app_nil_r. exact (inv_labels _ _ I).
+  - (* close *)
+    destruct (w_pending s) as [|p0 pt] eqn:Ep.
+    2: { inversion H; subst steps s'. exact I. }
+    inversion H; subst steps s'; clear H. unfold apply_steps. cbn [fold_left apply_step].
+    constructor; unfold upto_of; rewrite ?Ep; cbn [d_log d_pages length].
+    + rewrite last_manifest_app, last_manifest_map_label. cbn [last_manifest]. f_equal. lia.
+    + exact (inv_refs _ _ I).
+    + exact (inv_prop _ _ I).
+    + exact (inv_prop0 _ _ I).
+    + exact (inv_prop_below _ _ I).
+    + exact (inv_prop_notref _ _ I).
+    + exact (inv_pages_below _ _ I).
+    + exact (inv_refs_below _ _ I).
+    + rewrite log_txs_app, log_txs_map_label. reflexivity.
+    + intros t [].
+    + cbn. lia.
+    + intros t Hin. rewrite log_txs_app, log_txs_map_label in Hin. destruct Hin.
+    + rewrite log_labels_app, log_labels_map. cbn [log_labels]. apply app_nil_r.
 Qed.
 
 Lemma inv_plan : forall ops s d steps s', inv s d -> plan s ops = (steps, s') -> inv s' (apply_steps d steps).
@@ -149,7 +265,7 @@ Proof.
 Qed.
 
 (* backup of an idle database taken after the operations `before` (whatever follows): the restored database
-   opens, shows exactly the transactions committed before the backup, each of them included *)
+   opens and shows exactly the transactions committed, the labels created and the property tree written before the backup *)
 Theorem backup_quiescent : forall before after steps1 s1 steps2 s2,
   plan wstate_new before = (steps1, s1) -> plan s1 after = (steps2, s2) ->
   let steps := steps1 ++ steps2 in let i := length steps1 in
@@ -161,9 +277,8 @@ Proof.
   apply content_of_inv. exact (inv_plan _ _ _ _ _ inv_new P1).
 Qed.
 
-(* committed really is every acknowledged transaction: numbers 1 .. next_tx-1 *)
-Lemma committed_example : let '(steps, s) := plan wstate_new [WCommit; WCommit; WCompact 1; WCommit] in
-  committed s = [1; 2; 3] /\ content (apply_steps disk_empty steps) = Some [1; 2; 3] /\ length steps = 6%nat.
+Lemma committed_example : let '(steps, s) := plan wstate_new [WCommit; WLabel; WCommit; WCompact 1; WCommit; WCompact 0; WClose] in
+  committed s = ([1; 2; 3], [0], 2) /\ content (apply_steps disk_empty steps) = Some ([1; 2; 3], [0], 2) /\ length steps = 12%nat.
 Proof. vm_compute. repeat split; reflexivity. Qed.
 
 (* ---- concurrent backup: refuted (K-C29-concurrent) ---- *)
@@ -171,41 +286,56 @@ Proof. vm_compute. repeat split; reflexivity. Qed.
 Definition concurrent_witness : list iostep := fst (plan wstate_new [WCommit; WCompact 0; WCommit; WCompact 0]).
 
 Lemma backup_concurrent_refuted :
-  content (restore (backup concurrent_witness 3 6)) = None /\
-  consistent_at_some_moment concurrent_witness 3 6 = false /\
-  content (apply_steps disk_empty (firstn 3 concurrent_witness)) = Some [1] /\
-  content (apply_steps disk_empty (firstn 6 concurrent_witness)) = Some [1; 2].
+  content (restore (backup concurrent_witness 4 8)) = None /\
+  consistent_at_some_moment concurrent_witness 4 8 = false /\
+  content (apply_steps disk_empty (firstn 4 concurrent_witness)) = Some ([1], [], 1) /\
+  content (apply_steps disk_empty (firstn 8 concurrent_witness)) = Some ([1; 2], [], 2).
 Proof. vm_compute. repeat split; reflexivity. Qed.
 
-(* a commit alone between the two copies is harmless: the restored database is the source after that commit *)
-Lemma backup_concurrent_commit_only :
-  let steps := fst (plan wstate_new [WCommit; WCompact 0; WCommit; WCommit]) in
-  consistent_at_some_moment steps 3 5 = true /\ content (restore (backup steps 3 5)) = Some [1; 2; 3].
+(* the in-place property-tree write on its own: page file copied in the middle of the second compaction, after the
+   root page was rewritten in place but before the manifest is logged: still the source at that moment (the log
+   replays the pending transaction; the tree merely holds its properties already) *)
+Lemma backup_mid_compaction_inplace :
+  consistent_at_some_moment concurrent_witness 7 7 = true /\
+  content (restore (backup concurrent_witness 7 7)) = Some ([1; 2], [], 2) /\
+  (* ... whereas page file before the in-place write, log after the manifest: not even the segment pages are there *)
+  content (restore (backup concurrent_witness 5 8)) = None.
+Proof. vm_compute. repeat split; reflexivity. Qed.
+
+(* a close-time log rewrite between the copies is harmless when nothing was compacted in between *)
+Lemma backup_concurrent_close :
+  let steps := fst (plan wstate_new [WCommit; WLabel; WCompact 0; WClose]) in
+  consistent_at_some_moment steps 5 6 = true /\ content (restore (backup steps 5 6)) = Some ([1], [0], 1).
 Proof. vm_compute. split; reflexivity. Qed.
 
-(* known class: a manifest record is appended to the log between the two copies *)
-Definition manifest_between (steps : list iostep) (i j : nat) : bool :=
-  existsb (fun s => match s with SLog (LManifest _ _ _) => true | _ => false end) (firstn (j - i) (skipn i steps)).
+(* ... but commit + compaction + close between the copies is the known class again *)
+Lemma backup_concurrent_compact_close :
+  let steps := fst (plan wstate_new [WCommit; WCompact 0; WCommit; WCompact 0; WClose]) in
+  content (restore (backup steps 4 9)) = None.
+Proof. vm_compute. reflexivity. Qed.
 
-(* conditional (operation granularity): only commits run between the two copies => the restored database is
-   the source as of the moment the log was copied, with every transaction committed until then *)
-Definition only_commits (ops : list wop) : bool :=
-  forallb (fun o => match o with WCommit => true | WCompact _ => false end) ops.
+(* known class: a manifest switch of a compaction is logged between the two copies *)
+Definition no_compaction (ops : list wop) : bool :=
+  forallb (fun o => match o with WCompact _ => false | _ => true end) ops.
 
-Lemma plan_commits_pages : forall ops s steps s' d, only_commits ops = true -> plan s ops = (steps, s') ->
+(* conditional (operation granularity): commits, label creations and close-time log rewrites between the two copies,
+   but no compaction => the restored database is the source as of the moment the log was copied *)
+Lemma plan_nocompact_pages : forall ops s steps s' d, no_compaction ops = true -> plan s ops = (steps, s') ->
   d_pages (apply_steps d steps) = d_pages d.
 Proof.
   induction ops as [|o t IH]; intros s steps s' d Hc H; cbn [plan] in H.
   - inversion H; subst. reflexivity.
-  - cbn [only_commits forallb] in Hc. apply Bool.andb_true_iff in Hc. destruct Hc as [Ho Ht].
-    destruct o; [|discriminate]. cbn [wsteps] in H.
-    destruct (plan _ t) as [b s2] eqn:P. inversion H; subst steps s'; clear H.
-    cbn [app]. unfold apply_steps. cbn [fold_left].
-    pose proof (IH _ _ _ (apply_step d (SLog (LTx (w_next_tx s)))) Ht P) as Hx. unfold apply_steps in Hx. rewrite Hx. reflexivity.
+  - cbn [no_compaction forallb] in Hc. apply Bool.andb_true_iff in Hc. destruct Hc as [Ho Ht].
+    destruct (wsteps s o) as [a s1] eqn:W. destruct (plan s1 t) as [b s2] eqn:P. inversion H; subst steps s'; clear H.
+    rewrite apply_steps_app. rewrite (IH _ _ _ (apply_steps d a) Ht P).
+    destruct o as [| |k|]; try discriminate; cbn [wsteps] in W.
+    + inversion W; subst. reflexivity.
+    + inversion W; subst. reflexivity.
+    + destruct (w_pending s); inversion W; subst; reflexivity.
 Qed.
 
-Theorem backup_concurrent_commits : forall before between steps1 s1 steps2 s2,
-  plan wstate_new before = (steps1, s1) -> plan s1 between = (steps2, s2) -> only_commits between = true ->
+Theorem backup_concurrent_nocompact : forall before between steps1 s1 steps2 s2,
+  plan wstate_new before = (steps1, s1) -> plan s1 between = (steps2, s2) -> no_compaction between = true ->
   let steps := steps1 ++ steps2 in
   content (restore (backup steps (length steps1) (length steps))) = Some (committed s2) /\
   content (restore (backup steps (length steps1) (length steps))) = content (apply_steps disk_empty steps).
@@ -215,7 +345,7 @@ Proof.
   { unfold restore, backup, steps. rewrite firstn_all.
     rewrite firstn_app, Nat.sub_diag, firstn_all. cbn [firstn]. rewrite app_nil_r.
     rewrite apply_steps_app.
-    pose proof (plan_commits_pages _ _ _ _ (apply_steps disk_empty steps1) Hc P2) as Hp.
+    pose proof (plan_nocompact_pages _ _ _ _ (apply_steps disk_empty steps1) Hc P2) as Hp.
     destruct (apply_steps (apply_steps disk_empty steps1) steps2) as [pg lg] eqn:E.
     cbn [d_pages d_log] in *. rewrite Hp. reflexivity. }
   rewrite Hb. split; [|reflexivity].
